@@ -1,0 +1,28 @@
+//go:build !verif
+
+package remote
+
+import (
+	"errors"
+	"net"
+
+	"github.com/foxcpp/maddy/framework/module"
+)
+
+// Trace hooks of the verification harness (/verif); no-ops without the build tag "verif".
+
+var errVerifQuarantined = errors.New("refusing a quarantined message")
+
+func verifPolicies(_ *Target, _ *module.MsgMetadata, ps []module.DeliveryMXAuthPolicy) []module.DeliveryMXAuthPolicy {
+	return ps
+}
+func verifLookup(*remoteDelivery, string, bool, []*net.MX, error)                     {}
+func verifPool(*remoteDelivery, string, interface{})                                  {}
+func verifMX(*remoteDelivery, *mxConn, *net.MX)                                       {}
+func verifConnect(*remoteDelivery, *mxConn, string, *module.TLSLevel, *error, *error) {}
+func verifRcpt(*remoteDelivery, string, string, error)                                {}
+func verifBody(_ *remoteDelivery, c module.StatusCollector) module.StatusCollector    { return c }
+func verifMail(*remoteDelivery, *mxConn, error)                                       {}
+func verifBodyDone(*remoteDelivery)                                                   {}
+func verifData(*remoteDelivery, *mxConn)                                              {}
+func verifClose(*remoteDelivery)                                                      {}
